@@ -407,8 +407,11 @@ impl<'tcx> Cx<'tcx> {
                     j.put("e", self.expr(el));
                 }
             }
-            Loop(b, _label, src, _) => {
+            Loop(b, label, src, _) => {
                 j.put("k", J::s("loop"));
+                if let Some(l) = label {
+                    j.put("label", J::s(l.ident.name.to_string()));
+                }
                 j.put("src", J::s(format!("{:?}", src)));
                 j.put("body", self.block(b));
             }
